@@ -305,7 +305,21 @@ fn c16_open_any_file() {
             kani::assert(reader.generation as *const u8 == unsafe { page.add(14) } as *const u8, "C16.open.generation_pointer_at_14");
             kani::assert(reader.ceb_shm as *const u8 == unsafe { page.add(16) } as *const u8, "C16.open.record_pointer_at_16");
             kani::assert(reader._guard.segsize as u32 == size && size >= 72, "C16.open.maps_declared_size_covering_record");
-            kani::assert(reader.snapshot_gen == 0, "C16.open.starts_with_empty_cache");
+            // the cache of a fresh reader is empty, or - should `new` ever prime it - it is the file's own
+            // publication: the file's (even) generation together with the file's record.  Anything else
+            // (a generation that does not belong to the cached record) makes the generation fast path of
+            // `snapshot` serve a record under a false name (C03: catch-up; C01: torn or stale record trusted).
+            let cached_gen = reader.snapshot_gen;
+            let c = &reader.snapshot_ceb;
+            let rec = unsafe { page.add(16) };
+            let rd64 = |o: usize| unsafe { (rec.add(o) as *const i64).read_unaligned() };
+            let rd32 = |o: usize| unsafe { (rec.add(o) as *const u32).read_unaligned() };
+            let same_record = rd64(0) == c.as_of.tv_sec && rd64(8) == c.as_of.tv_nsec
+                && rd64(16) == c.void_after.tv_sec && rd64(24) == c.void_after.tv_nsec
+                && rd64(32) == c.bound_nsec && rd32(40) == c.max_drift_ppb && rd32(44) == c.reserved1
+                && rd32(48) == (c.clock_status as i32 as u32);
+            kani::assert(cached_gen == 0 || (cached_gen == gen && gen & 1 == 0 && same_record),
+                         "C16.open.cache_is_empty_or_the_file_s_own_publication");
             unsafe {
                 kani::assert(verif_open_fds == 0, "C16.open.descriptor_closed_on_success");
                 kani::assert(verif_live_mappings == 1, "C16.open.mapping_kept_on_success");
